@@ -1,9 +1,13 @@
 import DoitModel.Proofs.C08Data
 import DoitModel.Proofs.C08Confluence
+import DoitModel.Proofs.C08DynConfluence
+import DoitModel.Proofs.C08DynExec
 /-! # C08 — parallel runs are outcome-equivalent to the serial run
 
 Property theorems only.  Models: `Model/Run.lean` (M1, transition systems of the three runners), `Model/RunData.lean`
-(denotation of a complete run; data path worker → main).  Helper lemmas: `Proofs/C08*.lean`, `Proofs/Run*.lean`. -/
+(denotation of a complete run, static `denF` and with dynamic calc_dep edges `denTab`; data path worker → main).
+Helper lemmas: `Proofs/C08Conf*.lean` (graphs without calc_dep), `Proofs/C08Dyn*.lean` (any graph), `Proofs/Run*.lean`.
+The confluence half is proved in full: `C08_confluence` (no `NoCalc`, no `Acyclic`); `C08_confluence_partial` is kept. -/
 namespace DoitModel.C08
 open DoitModel.Run
 
@@ -90,9 +94,10 @@ theorem C08_zip_truncates :
 `DenOf inp t d` (`Proofs/C08Conf1.lean`) is the denotational outcome: `d` is obtained from the outcomes of the task_deps
 of `t` (and, when the first `select_task` pass says `run`, of its setup-tasks) by `combine` — no dispatcher, no queue,
 no schedule.  It is functional (`DenOf.functional`) without any acyclicity hypothesis, and on acyclic graphs it is what
-the executable `denF` computes (`C08_den_computable`).  Hypothesis `NoCalc`: no `calc_dep` edges (dynamic edges are
-outside the theorems; see `C08_confluence_full`).  The oracle of `RunInput` (`statusOf`, `outcome`, `ignored`, `argsOk`)
-is a function of the task alone, which is the reading of "deterministic tasks". -/
+the executable `denF` computes (`C08_den_computable`).  Hypothesis `NoCalc` of this first group: no `calc_dep` edges;
+the second group below (`C08_confluence`, `Dyn.DenOf`) covers every graph, dynamic edges included.  The oracle of
+`RunInput` (`statusOf`, `outcome`, `ignored`, `argsOk`, `calcRes`) is a function of the task alone, which is the
+reading of "deterministic tasks". -/
 
 /-- (I10) In EVERY reachable state of the serial system and of the parallel system (thread or process runner, any
     `numProcess`, any interleaving of main and workers, any iteration order of the dispatcher's sets), a finished
@@ -162,15 +167,148 @@ theorem C08_confluence_partial (inp1 inp2 : RunInput) (hsame : SameTasks inp1 in
   simp only [Bool.and_eq_true, List.all_eq_true, List.mem_range, beq_iff_eq] at hp
   exact hp.1 t (Nat.lt_succ_self t)
 
-/-- the full statement (dynamic `calc_dep` edges included): NOT proved — the denotation of a graph whose edges depend
-    on what calc_dep tasks deliver needs a fixed point over delivered edges; covered by the correspondence (K1) and the
-    differential monitor (P) only -/
-def C08_confluence_full : Prop :=
-  ∀ (inp1 inp2 : RunInput), SameTasks inp1 inp2 → (∀ t, inp1.calcRes t = inp2.calcRes t) →
-    (∀ t, t ∈ inp1.sel ↔ t ∈ inp2.sel) → ∀ (s1 s2 : Sys),
-    (Reach inp1 s1 ∨ PReach inp1 s1) → (Reach inp2 s2 ∨ PReach inp2 s2) →
-    (s1.rpc = .halted ∧ s1.halt = .none ∧ s1.stop = false) → (s2.rpc = .halted ∧ s2.halt = .none ∧ s2.stop = false) →
-    (∀ t, reportOf (trace inp1 s1) t = reportOf (trace inp2 s2) t) ∧ exitCode s1 = exitCode s2
+/-! ## `confluence` for every task graph, dynamic `calc_dep` edges included
+
+`Dyn.DenOf inp t d` (`Proofs/C08Dyn1.lean`): the dependency set of `t` is no longer read off the task table — its
+calc_deps are the least set that contains `calcDep t` and is closed under the `values['calc_dep']` of its executed /
+up-to-date members (`Dyn.CalcOf`), its task_deps are `taskDep t` plus the `values['task_dep']` and the owners of the
+`values['file_dep']` those members deliver (`Dyn.DepOf`); which members are executed / up-to-date is their own derived
+outcome.  The oracle `calcRes` (what a calc task delivers) is a function of the task, like `outcome`.  `Dyn.DenOf` is
+functional with no acyclicity hypothesis; a run that ends without exception has derived every outcome it reports, so
+none of the theorems below needs `Acyclic`.  The model side is the node invariant `Dyn.NodeS`: every entry of
+`task.task_dep` / `task.calc_dep` (`dynTask` / `dynCalc`) is static or was delivered by a finished good calc_dep
+(soundness), and `AllDC` (C01_order_delivered: everything a processed good calc_dep delivers is in them, completeness). -/
+
+/-- (I10, any graph) In EVERY reachable state of the serial and of the parallel system — any runner, any `numProcess`,
+    any interleaving, any iteration order of the dispatcher's sets, any order in which calc results arrive — a finished
+    `run_status` is the denotation of the task, and so is every terminal report in the event list. -/
+theorem C08_status_is_den_dyn (inp : RunInput) (s : Sys) (hr : Reach inp s ∨ PReach inp s) (t : Name) :
+    ((stOf s t).finished = true → ∃ d, Dyn.DenOf inp t d ∧ d.rs = stOf s t) ∧
+    (∀ d, (∃ e ∈ s.events, Ev.den? t e = some d) → Dyn.DenOf inp t d) :=
+  ⟨Dyn.status_is_den hr t, fun d h => Dyn.report_is_den hr t d h⟩
+
+/-- the dynamic denotation is a function of the task table and the oracle (including `calcRes`) only -/
+theorem C08_den_schedule_independent_dyn (inp1 inp2 : RunInput) (h : SameTasks inp1 inp2)
+    (hc : ∀ t, inp1.calcRes t = inp2.calcRes t) (t : Name) (d1 d2 : Den)
+    (h1 : Dyn.DenOf inp1 t d1) (h2 : Dyn.DenOf inp2 t d2) : d1 = d2 :=
+  Dyn.DenOf.functional ((Dyn.DenOf_congr ⟨h, funext hc⟩ t d1).mp h1) h2
+
+/-- on graphs without calc_dep the dynamic denotation is the static one: the `NoCalc` theorems above are the special
+    case, and `denF` computes `Dyn.DenOf` there -/
+theorem C08_den_dyn_noCalc (inp : RunInput) (hnc : NoCalc inp) (t : Name) (d : Den) :
+    Dyn.DenOf inp t d ↔ DenOf inp t d :=
+  Dyn.DenOf_noCalc hnc t d
+
+/-- the dynamic denotation is total on finite acyclic graphs — `Dyn.Ranked` is C09's hypothesis `Ranked`: the rank decreases along
+    task_dep, setup, static and deliverable calc_dep edges and along everything a calc_dep can deliver — so with
+    `DenOf.functional` every task has exactly one outcome there.  (Confluence itself does not need this: a run that
+    ends without exception has derived what it reports.) -/
+theorem C08_den_total_dyn (inp : RunInput) (rank : Name → Nat) (hr : Dyn.Ranked inp rank) (N : Nat)
+    (hN : ∀ n d, Dyn.Dep inp n d → d < N) (t : Name) :
+    ∃ d, Dyn.DenOf inp t d ∧ d ≠ .bot ∧ ∀ d', Dyn.DenOf inp t d' → d' = d := by
+  obtain ⟨d, hd⟩ := Dyn.DenOf_total hr N hN t
+  exact ⟨d, hd, hd.ne_bot, fun d' h' => h'.functional hd⟩
+
+/-- non-vacuity: the example with dynamic edges below (`Dyn.exC08calc`) meets the hypotheses of `C08_den_total_dyn` -/
+example : Dyn.Ranked Dyn.exC08calc (fun n => if n = 1 ∨ n = 3 then 1 else 0) ∧
+    ∀ n d, Dyn.Dep Dyn.exC08calc n d → d < 6 :=
+  Dyn.exC08calc_ranked
+
+/-- a complete run (normal end, not stopped) of ANY graph reports exactly the denotational closure of the selection
+    (`Dyn.DenCl`: closed under task_dep, static and delivered calc_dep, what executed / up-to-date calc_deps deliver,
+    and the setup-tasks of members whose first pass says `run`) -/
+theorem C08_complete_reports_closure_dyn (inp : RunInput) (s : Sys) (hr : Reach inp s ∨ PReach inp s)
+    (hend : s.rpc = .halted) (hhalt : s.halt = .none) (hstop : s.stop = false) (t : Name) :
+    Reported s t ↔ Dyn.DenCl inp t :=
+  Dyn.reported_iff_closure hr hend hhalt hstop t
+
+/-- C08, confluence half, FULL statement (dynamic `calc_dep` edges included, no `NoCalc`, no `Acyclic`): two complete
+    runs of the same task table, the same `calcRes` oracle and the same selection — the serial run and a run with any
+    number of worker threads or processes under any interleaving, or any two such runs — report the same set of tasks,
+    give every task the same terminal report in the observable trace (executed successfully / up-to-date / ignored /
+    failed with the same kind; hence the same `save_success` / `remove_success` DB effects), leave the same
+    `run_status` on every task both have finished, and return the same exit code. -/
+theorem C08_confluence (inp1 inp2 : RunInput) (hsame : SameTasks inp1 inp2)
+    (hcalc : ∀ t, inp1.calcRes t = inp2.calcRes t) (hsel : ∀ t, t ∈ inp1.sel ↔ t ∈ inp2.sel) (s1 s2 : Sys)
+    (h1 : Reach inp1 s1 ∨ PReach inp1 s1) (h2 : Reach inp2 s2 ∨ PReach inp2 s2)
+    (e1 : s1.rpc = .halted ∧ s1.halt = .none ∧ s1.stop = false)
+    (e2 : s2.rpc = .halted ∧ s2.halt = .none ∧ s2.stop = false) :
+    (∀ t, Reported s1 t ↔ Reported s2 t) ∧
+    (∀ t, reportOf (trace inp1 s1) t = reportOf (trace inp2 s2) t) ∧
+    (∀ t, (stOf s1 t).finished = true → (stOf s2 t).finished = true → stOf s1 t = stOf s2 t) ∧
+    exitCode s1 = exitCode s2 :=
+  have hs : Dyn.SameTasksC inp1 inp2 := ⟨hsame, funext hcalc⟩
+  ⟨Dyn.complete_runs_same_reported hs hsel h1 h2 e1 e2, Dyn.complete_runs_same_reportOf hs hsel h1 h2 e1 e2,
+   fun t => Dyn.confluent_status hs h1 h2 t, Dyn.complete_runs_same_exit hs hsel h1 h2 e1 e2⟩
+
+/-- the pair monitor (P) the driver evaluates on a serial and a parallel real run (`monC08Pair`: same report per task,
+    same exit code) holds of any two complete runs of the model on ANY graph -/
+theorem C08_pair_monitor_holds (inp1 inp2 : RunInput) (hsame : SameTasks inp1 inp2)
+    (hcalc : ∀ t, inp1.calcRes t = inp2.calcRes t) (hsel : ∀ t, t ∈ inp1.sel ↔ t ∈ inp2.sel) (s1 s2 : Sys)
+    (h1 : Reach inp1 s1 ∨ PReach inp1 s1) (h2 : Reach inp2 s2 ∨ PReach inp2 s2)
+    (e1 : s1.rpc = .halted ∧ s1.halt = .none ∧ s1.stop = false)
+    (e2 : s2.rpc = .halted ∧ s2.halt = .none ∧ s2.stop = false) (nTasks : Nat) :
+    monC08Pair nTasks (trace inp1 s1) (trace inp2 s2) (exitCode s1) (exitCode s2) = true := by
+  obtain ⟨_, hrep, _, hexit⟩ := C08_confluence inp1 inp2 hsame hcalc hsel s1 s2 h1 h2 e1 e2
+  unfold monC08Pair
+  simp only [Bool.and_eq_true, List.all_eq_true, List.mem_range, beq_iff_eq]
+  exact ⟨fun t _ => hrep t, hexit⟩
+
+/-- confluence, state-wise, any graph: any two reachable states (complete or not) of any two of the transition systems
+    over the same task table agree on every task finished in both and on every task reported in both -/
+theorem C08_confluence_status_dyn (inp1 inp2 : RunInput) (hsame : SameTasks inp1 inp2)
+    (hcalc : ∀ t, inp1.calcRes t = inp2.calcRes t) (s1 s2 : Sys)
+    (h1 : Reach inp1 s1 ∨ PReach inp1 s1) (h2 : Reach inp2 s2 ∨ PReach inp2 s2) (t : Name) :
+    ((stOf s1 t).finished = true → (stOf s2 t).finished = true → stOf s1 t = stOf s2 t) ∧
+    (∀ d1 d2, (∃ e ∈ s1.events, Ev.den? t e = some d1) → (∃ e ∈ s2.events, Ev.den? t e = some d2) → d1 = d2) :=
+  ⟨Dyn.confluent_status ⟨hsame, funext hcalc⟩ h1 h2 t,
+   fun d1 d2 r1 r2 => Dyn.confluent_report ⟨hsame, funext hcalc⟩ h1 h2 t d1 d2 r1 r2⟩
+
+/-- the exit code of a complete run of any graph is `exitOfDens` over the derived outcomes of the closure, however the
+    closure is enumerated and the outcomes are computed -/
+theorem C08_complete_exit_dyn (inp : RunInput) (s : Sys) (hr : Reach inp s ∨ PReach inp s)
+    (hend : s.rpc = .halted) (hhalt : s.halt = .none) (hstop : s.stop = false)
+    (L : List Name) (hL : ∀ t, t ∈ L ↔ Dyn.DenCl inp t) (den : Name → Den)
+    (hden : ∀ t ∈ L, Dyn.DenOf inp t (den t)) : exitCode s = exitOfDens (L.map den) :=
+  Dyn.complete_exit_is_den hr hend hhalt hstop L hL den hden
+
+/-- the executable denotation with dynamic edges (`denFC`: bottom-up table over the tasks `< nTasks`, calc_dep sets closed
+    by iteration) is sound: a determined answer IS the denotation — it is derived, and every derivation gives it.  (No
+    acyclicity hypothesis; on a graph where the rounds do not suffice the answer is `bot`.) -/
+theorem C08_den_computable_dyn (inp : RunInput) (nTasks : Nat) (t : Name) (h : denFC inp nTasks t ≠ .bot) :
+    Dyn.DenOf inp t (denFC inp nTasks t) ∧ ∀ d, Dyn.DenOf inp t d → denFC inp nTasks t = d :=
+  ⟨Dyn.denFC_sound inp nTasks t h, fun _ hd => (Dyn.denFC_sound inp nTasks t h).functional hd⟩
+
+/-- under the decidable side condition `determinedC` (every member of the computed closure is determined and has a
+    closed dependency list, the closure is closed) the computed closure is the denotational closure, and the monitor
+    `monC08DenC` the driver evaluates on implementation traces of graphs WITH calc_dep (reports = `denFC`, reported set
+    = `denClosureC`, exit = `denExitC`) holds of every reachable state of the model, serial or parallel -/
+theorem C08_monitors_hold_dyn (inp : RunInput) (s : Sys) (hr : Reach inp s ∨ PReach inp s) (nTasks : Nat)
+    (hdet : determinedC inp nTasks = true) (complete : Bool)
+    (hc : complete = true → s.rpc = .halted ∧ s.halt = .none ∧ s.stop = false) :
+    (∀ t, t ∈ denClosureC inp nTasks ↔ Dyn.DenCl inp t) ∧
+    monC08DenC inp nTasks (trace inp s) (exitCode s) complete = true :=
+  ⟨Dyn.denClosureC_spec hdet, Dyn.C08_monitor_denC hr nTasks hdet complete hc⟩
+
+/-- non-vacuity: `Dyn.exC08calc` (twice-delivered dependencies) is determined, its closure is all six tasks, task `1`
+    is `unmet` because the delivered task_dep `2` fails, the exit code is ERROR — and the monitor theorem applies to
+    its complete run with two worker threads -/
+example : determinedC Dyn.exC08calc 6 = true ∧ denClosureC Dyn.exC08calc 6 = [1, 3, 0, 4, 2, 5] ∧
+    denFC Dyn.exC08calc 6 1 = .fail .unmet ∧ denFC Dyn.exC08calc 6 5 = .ok ∧ denExitC Dyn.exC08calc 6 = 2 ∧
+    ∃ s, PReach Dyn.exC08calc s ∧ monC08DenC Dyn.exC08calc 6 (trace Dyn.exC08calc s) (exitCode s) true = true :=
+  ⟨by decide +kernel, by decide +kernel, by decide +kernel, by decide +kernel, by decide +kernel,
+   _, autoRun_preach (by decide) false true 800 _ PReach.init,
+   (C08_monitors_hold_dyn _ _ (Or.inr (autoRun_preach (by decide) false true 800 _ PReach.init)) 6 (by decide +kernel)
+     true (fun _ => ⟨by decide +kernel, by decide +kernel, by decide +kernel⟩)).2⟩
+
+/-- non-vacuity of `C08_confluence` on dynamic edges: `Dyn.exC08calc` has a complete run with two worker threads and a
+    complete serial run; in the parallel run the twice-delivered `5` is executed, `1` is reported `unmet` because the
+    delivered task_dep `2` failed, and the exit code is ERROR -/
+example : ∃ s1 s2, Reach { Dyn.exC08calc with runner := .serial, numProc := 0 } s1 ∧ PReach Dyn.exC08calc s2 ∧
+    (s1.rpc = .halted ∧ s1.halt = .none ∧ s1.stop = false) ∧ (s2.rpc = .halted ∧ s2.halt = .none ∧ s2.stop = false) ∧
+    Ev.success 5 ∈ s2.events ∧ Ev.failure 1 .unmet ∈ s2.events ∧ Ev.failure 1 .unmet ∈ s1.events ∧ exitCode s2 = 2 :=
+  ⟨_, _, autoRun_reach (by decide) false false 800 _ Reach.init, autoRun_preach (by decide) false true 800 _ PReach.init,
+   by decide +kernel, by decide +kernel, by decide +kernel, by decide +kernel, by decide +kernel, by decide +kernel⟩
 
 /-- the monitors the driver evaluates on implementation traces hold of the model's own traces: `monC08Den` (reports =
     `denF`, reported set = `denClosure`, exit = `denExit`) for every reachable state of an acyclic calc-free input, and
